@@ -139,6 +139,47 @@ def roundtrip_probe(ctx, mon, v):
             return
 
 
+def simplify_again(ctx, mon, rng, v):
+    """one object: simplify(), then a change that does not go through apply/remove_formatting (+=, in-place replace
+    by a formatted value, assign_str, in-place padding / clipping), then simplify() again - the second call is judged
+    like the first (a library that remembers "already simplified" must notice every kind of change)"""
+    L = ctx.L
+    with mon.quiet():
+        try:
+            c = v.copy()
+        except Exception:
+            return
+    try:
+        c.simplify()
+        k = rng.randrange(7)
+        with mon.quiet():
+            piece = L.AnsiString(rng.choice(['cd', 'x', ' yz']), *rng.choice(
+                [['22'], ['bold', '[38'], ['[1;31'], ['red', 'bg_blue'], [L.AnsiSetting('bad code')], ['39', 'italic'], []]))
+            if k == 0:
+                c += piece
+            elif k == 1:
+                c.replace(c.base_str[:1] or 'a', piece, inplace=True)
+            elif k == 2:
+                c.assign_str(c.base_str + 'zz')
+            elif k == 3:
+                c.ljust(len(c.base_str) + 2, inplace=True)
+                c += piece
+            elif k == 4:
+                c.clip(0, max(1, len(c.base_str) - 1), inplace=True)
+                c += piece
+            elif k == 5:
+                c += piece
+                c.upper(inplace=True)
+            else:
+                c = L.AnsiString.join(c, piece)
+                c.simplify()
+                c += piece
+        ctx.sig('simplify-again:%d' % k)
+        c.simplify()
+    except Exception:
+        ctx.aborted['simplify-again-raised'] += 1
+
+
 def drive(ctx, mon, tier, only_case=None):
     L = ctx.L
     sz = tier_sizes(tier)
@@ -187,5 +228,8 @@ def drive(ctx, mon, tier, only_case=None):
                     v.simplify()
             except Exception:
                 ctx.aborted['simplify-raised'] += 1
+        for v in vals[-3:]:
+            if isinstance(v, L.AnsiString):
+                simplify_again(ctx, mon, rng, v)
 
     run_cases(ctx, mon, CASES[tier], body, only_case=only_case)
